@@ -8,6 +8,8 @@ package main
 // into the caller's vocabulary by substituting parameters with the call's arguments.
 
 import (
+	"fmt"
+	"go/constant"
 	"go/token"
 	"strconv"
 	"strings"
@@ -675,4 +677,71 @@ func movedInto(fn *ssa.Function, pred func(ci ssa.CallInstruction) bool) *ssa.Fu
 		}
 	}
 	return nil
+}
+
+// constResults: the integer constants fn can return at result idx, together with a nil error, under a valuation of
+// its atoms; a returned call to a same-package helper is followed with the valuation mapped onto its parameters.
+// ok is false when some feasible return yields a value that is neither.
+func constResults(fn *ssa.Function, idx int, val map[string]int64, depth int) (vals map[int64]bool, ok bool) {
+	vals = map[int64]bool{}
+	if depth > 3 {
+		return vals, false
+	}
+	ok = true
+	ei := errorResultIndex(fn)
+	reach := psReachVal(fn, []*ssa.BasicBlock{fn.Blocks[0]}, nil, val)
+	for _, b := range fn.Blocks {
+		r, isR := b.Instrs[len(b.Instrs)-1].(*ssa.Return)
+		if !isR || !reach[b] || idx >= len(r.Results) {
+			continue
+		}
+		if ei >= 0 && ei < len(r.Results) && definitelyNonNilErr(returnedValue(r, ei), b, 0) {
+			continue
+		}
+		rv := returnedValue(r, idx)
+		if cv, isCv := rv.(*ssa.Convert); isCv {
+			rv = cv.X
+		}
+		switch x := rv.(type) {
+		case *ssa.Const:
+			if x.Value != nil && x.Value.Kind() == constant.Int {
+				vals[x.Int64()] = true
+				continue
+			}
+			ok = false
+		case *ssa.Call, *ssa.Extract:
+			var call *ssa.Call
+			hidx := 0
+			if ex, isEx := x.(*ssa.Extract); isEx {
+				call, _ = ex.Tuple.(*ssa.Call)
+				hidx = ex.Index
+			} else {
+				call = x.(*ssa.Call)
+			}
+			var h *ssa.Function
+			if call != nil {
+				h = samePkgHelper(fn, &call.Call)
+			}
+			if h == nil {
+				ok = false
+				continue
+			}
+			hval := map[string]int64{}
+			for i, a := range call.Call.Args {
+				if k, isK := a.(*ssa.Const); isK && k.Value != nil && k.Value.Kind() == constant.Int {
+					hval[fmt.Sprintf("p%d", i)] = k.Int64()
+				} else if v, has := val[desc(a)]; has {
+					hval[fmt.Sprintf("p%d", i)] = v
+				}
+			}
+			hv, hok := constResults(h, hidx, hval, depth+1)
+			for k := range hv {
+				vals[k] = true
+			}
+			ok = ok && hok
+		default:
+			ok = false
+		}
+	}
+	return vals, ok
 }
